@@ -165,6 +165,10 @@ _ns["u_xscalar"] = _mk_explicit(False)
 EXTRA_PROPS = {"xscalar": f_scalar}
 
 
+def f_other(o):
+    return o.other * 3 + 1
+
+
 def _tpc(self, name, old, *rest):
     d = DELIVERED.setdefault(id(self), {})
     d[name] = d.get(name, 0) + 1
@@ -186,6 +190,19 @@ def _mk_sub(name, fn):
     return cached_property(getter)
 
 
+# a subclass that REDECLARES an inherited observed property with another dependency: only the subclass's
+# expression may invalidate it (a change of `value`, the base class's dependency, is not relevant any more)
+def _redecl_getter(self):
+    bump(self, "c_scalar")
+    return f_other(self)
+
+
+_redecl_getter.__name__ = "_get_c_scalar"
+RootRedecl = type("RootRedecl", (Root,), {"c_scalar": Property(Int, observe="other"),
+                                          "_get_c_scalar": cached_property(_redecl_getter),
+                                          "__module__": __name__})
+
+
 # a subclass that overrides ONLY the getter methods of the inherited (uncached) observed properties and
 # marks them @cached_property; the Property declarations themselves are inherited
 RootSub = type("RootSub", (Root,), dict([("_get_u_" + _n, _mk_sub(_n, _fn)) for _n, (_e, _fn) in PROPS.items()]
@@ -198,7 +215,7 @@ PATHS = {
     "dict": [["m", "*", "value"]], "set": [["s", "*", "value"]], "nums": [["nums", "*"]],
     "nested": [["child", "kids", "*", "value"]], "kidchild": [["kids", "*", "child", "value"]],
     "multi": [["value"], ["child", "value"], ["nums", "*"]],
-    "mitems": [["m", "*"]], "sitems": [["s", "*"]], "xscalar": [["value"]],
+    "mitems": [["m", "*"]], "sitems": [["s", "*"]], "xscalar": [["value"]], "redecl": [["other"]],
 }
 # (the "raw" and "chain" shapes have their own view below)
 TCODE = {"value": 1, "other": 2, "child": 3, "kids": 4, "m": 5, "s": 6, "nums": 7}
@@ -263,9 +280,24 @@ def snapshot_view(root, pname, idx):
 def run_case(case):
     pname, cached = case["prop"], case["cached"]
     sub = bool(case.get("sub"))
-    RootCls = RootSub if sub else Root
+    added = case.get("added")                # "instance" / "class": the property is added with add_trait / add_class_trait
+    redecl = bool(case.get("redecl"))        # prop "scalar", cached: c_scalar redeclared with observe="other"
+    RootCls = RootRedecl if redecl else RootSub if sub else Root
     attr = ("u_" if (sub or not cached) else "c_") + pname
-    fn = EXTRA_PROPS[pname] if pname in EXTRA_PROPS else PROPS[pname][1]
+    if added:
+        # listed finding: has_traits.add_trait / add_class_trait ignore the `observe` metadata of a Property
+        attr = "d_scalar"
+
+        def _dyn_getter(self):
+            bump(self, "d_scalar")
+            return f_scalar(self)
+        _dyn_getter.__name__ = "_get_d_scalar"
+        dyn_trait = Property(cached_property(_dyn_getter) if cached else _dyn_getter, observe="value")
+        if added == "class":
+            RootCls = type("RootDyn", (Root,), {"__module__": __name__})
+            RootCls.add_class_trait("d_scalar", dyn_trait)
+    fn = f_other if redecl else EXTRA_PROPS[pname] if pname in EXTRA_PROPS else PROPS[pname][1]
+    vname = "redecl" if redecl else pname
     if fn is None:
         def fn(o, _f=IDFUNS[pname]):
             return _f(o, IDX)
@@ -291,6 +323,8 @@ def run_case(case):
             o.m = {k: pool[j] for k, j in d["m"]}
             o.s = set(pool[j] for j in d["s"])
             o.nums = list(d["nums"])
+    if added == "instance":
+        pool[0].add_trait("d_scalar", dyn_trait)
     listeners = []      # [style, callable, events seen] in attachment order
 
     def canon(v):
@@ -335,7 +369,7 @@ def run_case(case):
         v = pool[0].__dict__.get("_traits_cache_" + attr, Undefined)
         return None if v is Undefined else canon(v)
 
-    matched, view0 = snapshot_view(pool[0], pname, idx_of())
+    matched, view0 = snapshot_view(pool[0], vname, idx_of())
     out = {"init_view": view0, "init_oracle": fn(pool[0]), "hist": []}
     for op in case["ops"]:
         for l_ in listeners:
@@ -365,6 +399,9 @@ def run_case(case):
                     newpool = pickle.loads(pickle.dumps(pool, op[2]))
                 elif mode == "deepcopy":
                     newpool = copy.deepcopy(pool)
+                elif mode == "shallow":
+                    # copy.copy of the root only: the new root shares children and items with the pool
+                    newpool = [copy.copy(pool[0])] + pool[1:]
                 else:
                     memo = {}
                     newroot = pool[0].clone_traits(memo=memo, copy="deep")
@@ -377,7 +414,7 @@ def run_case(case):
             else:
                 # a mutation: ["Set", i, trait, v] / list, dict, set operations
                 o = pool[op[1]]
-                matched, _ = snapshot_view(pool[0], pname, idx_of())
+                matched, _ = snapshot_view(pool[0], vname, idx_of())
                 if k == "SetRaw":
                     touched = ("t", id(o), "raw") in matched
                     o.raw = RAW_VALUES[op[2]]()
@@ -435,7 +472,7 @@ def run_case(case):
         except Exception as e:  # noqa: a violating implementation must yield an observation, not a crash
             err = type(e).__name__
         try:
-            _, view = snapshot_view(pool[0], pname, idx_of())
+            _, view = snapshot_view(pool[0], vname, idx_of())
             oracle = canon(fn(pool[0]))
         except Exception as e:  # noqa
             view, oracle = [-1], -88888
